@@ -65,7 +65,7 @@ fn run(input: RunInput) -> ScenFuture {
         // (every limit leaves room for the small follow-up request, added header included)
         let lc = (place & 1 != 0).then(|| pick(&mut lr) + added_entry);
         let ls = (place & 2 != 0).then(|| pick(&mut lr) + added_entry);
-        let n_rpcs = if class8m { 3 } else { w.param("rpcs", 1, 40) as u64 };
+        let n_rpcs = if class8m { 3 } else { w.param("rpcs", 1, if w.tier == Tier::Quick { 40 } else { 100 }) as u64 };
 
         let mut cfg_c = base_config(30_000, Some(5_000));
         cfg_c.max_frame_size = lc;
